@@ -6,6 +6,44 @@ import subprocess
 from vf.driver import Harness, Prop, VERIF
 from vf.props import reg, COMMON_ASSUMPTIONS
 
+_PROBE = r'''
+#include <fcppt/optional/object.hpp>
+#include <fcppt/optional/to_container.hpp>
+#include <vector>
+struct s { s(); s(s const &); s(s &&) noexcept; s &operator=(s const &); s &operator=(s &&) noexcept; };
+std::vector<s> f(fcppt::optional::object<s> const &o) { return fcppt::optional::to_container<std::vector<s>>(o); }
+'''
+_probe_result = {}
+
+
+def _const_to_container_compiles():
+    """optional::to_container(const lvalue optional) did not compile before the fix 172391c (a hard error inside
+    container::make, not detectable with a requires-expression). The harness must still build against such a tree, so
+    the const-lvalue flavour of that one entry is switched off there (and reported as an observation)."""
+    from vf import driver
+    key = driver.REPO
+    if key not in _probe_result:
+        cmd = ['g++'] + driver.SAN_COMMON.split() + ['-fsyntax-only', '-x', 'c++', '-'] + driver.include_flags('asan').split()
+        try:
+            r = subprocess.run(cmd, input=_PROBE, stdout=subprocess.PIPE, stderr=subprocess.STDOUT, text=True, timeout=300)
+            _probe_result[key] = r.returncode == 0
+        except Exception:  # noqa
+            _probe_result[key] = True
+    return _probe_result[key]
+
+
+class _C05Harness(Harness):
+    """extra_flags is computed lazily (after the libraries and their generated headers exist)."""
+
+    @property
+    def extra_flags(self):
+        return self._extra + ('' if _const_to_container_compiles() else ' -DC05_NO_CONST_TO_CONTAINER')
+
+    @extra_flags.setter
+    def extra_flags(self, v):
+        self._extra = v
+
+
 SLICES = ['algorithm', 'container', 'optional', 'either', 'variant+tuple', 'record+array', 'grid+tree', 'options', 'parse']
 
 
@@ -19,6 +57,7 @@ def _post(prop, tier, seed, rundir, results, violations, inconclusive):
     src = os.path.join(VERIF, 'harness', 'c05_conserve.cpp')
     base = ['g++'] + driver.SAN_COMMON.split() + ['-fsyntax-only', '-DC05_MO', '-DVF_NSLICES=%d' % len(SLICES)] + \
         driver.include_flags(cfg).split()
+    const_ok = _const_to_container_compiles()
 
     def one(k):
         cmd = base + ['-DVF_SLICE=%d' % k, src]
@@ -58,17 +97,21 @@ def _post(prop, tier, seed, rundir, results, violations, inconclusive):
             'detail': 'the operations of this slice do not compile with a move-only element type:\n' + '\n'.join(errs + ctx)[:3000],
             'harness': 'c05_conserve', 'part': 0, 'nparts': 1, 'idx': 0,
             'replay_argv': ['--tier', tier, '--seed', str(seed), '--part', '0/1', '--entry', 'move-only/' + SLICES[k]]})
-    return {'counters': {'move-only/slices-compiled': len(rs), 'move-only/slices-accepted': ok},
+    return {'counters': {'move-only/slices-compiled': len(rs), 'move-only/slices-accepted': ok,
+                         'probe/to_container-const-lvalue-compiles': 1 if const_ok else 0},
             'required': ['move-only/slices-compiled'],
-            'coverage': {'move_only_compile': {SLICES[k]: ('ok' if rc == 0 else 'failed') for k, rc, _ in rs}}}
+            'coverage': {'move_only_compile': {SLICES[k]: ('ok' if rc == 0 else 'failed') for k, rc, _ in rs},
+                         'not_compiling_flavours': [] if const_ok else [
+                             'optional::to_container(const lvalue optional) does not compile in this tree (hard error in '
+                             'container::make): that flavour is not run']}}
 
 
 reg(Prop(
     'C05',
-    [Harness('c05_conserve', libs=('options', 'core'), parts=8, slices=len(SLICES)),
+    [_C05Harness('c05_conserve', libs=('options', 'core'), parts=8, slices=len(SLICES)),
      # thorough only: the same harness without sanitizer instrumentation under valgrind memcheck (uninitialised reads
      # of moved-from storage and leaks that ASan's red zones do not see)
-     Harness('c05_conserve_memcheck', src=['c05_conserve.cpp'], cfg='plain', runner='valgrind', tiers=('thorough',),
+     _C05Harness('c05_conserve_memcheck', src=['c05_conserve.cpp'], cfg='plain', runner='valgrind', tiers=('thorough',),
              libs=('options', 'core'), parts=8, slices=len(SLICES))],
     rule='A case is one call of one registered operation with one combination of value categories (L = non-const lvalue, C = const '
          'lvalue, R = rvalue, for every argument) and one argument shape (sizes 0-3 quick / 0-6 thorough for dynamic containers, fixed '
